@@ -195,6 +195,7 @@ func cmdCheck(args []string) int {
 	}
 	obls = append(obls, eng.callersObligations(*prop)...)
 	obls = append(obls, eng.nonBlockingObligations(*prop)...)
+	obls = append(obls, eng.storedFieldsObligations(*prop)...)
 	tGen := time.Since(t0).Seconds() - tLoad
 	tmp, _ := os.MkdirTemp("", "verif-smt-")
 	if !*keep {
@@ -1019,4 +1020,83 @@ func (r *Report) selfTest() ([]map[string]any, []string, bool) {
 		out = append(out, res)
 	}
 	return out, lines, ok
+}
+
+// storedFieldsObligations: "storedfields T1, T2" rules: a struct that is written to the store with encoding/gob
+// (or JSON) loses every unexported field silently; all fields of the named types, and of the /repo struct types
+// reachable from them, must be exported.
+func (eng *Engine) storedFieldsObligations(tag string) []*Obligation {
+	var out []*Obligation
+	var paths []string
+	for p := range eng.ld.pkgSpecs {
+		paths = append(paths, p)
+	}
+	sort.Strings(paths)
+	for _, p := range paths {
+		for _, rule := range eng.ld.pkgSpecs[p].StoredFields {
+			has := false
+			for _, t := range rule.Tags {
+				if t == tag {
+					has = true
+				}
+			}
+			if !has {
+				continue
+			}
+			pk := eng.ld.byPath[p]
+			var bad []string
+			n := 0
+			seen := map[types.Type]bool{}
+			var walk func(t types.Type, where string)
+			walk = func(t types.Type, where string) {
+				if seen[t] {
+					return
+				}
+				seen[t] = true
+				switch u := t.(type) {
+				case *types.Named:
+					if u.Obj().Pkg() != nil && eng.ld.inRepo(u.Obj().Pkg().Path()) {
+						walk(u.Underlying(), u.Obj().Name())
+					}
+				case *types.Pointer:
+					walk(u.Elem(), where)
+				case *types.Slice:
+					walk(u.Elem(), where)
+				case *types.Array:
+					walk(u.Elem(), where)
+				case *types.Map:
+					walk(u.Key(), where)
+					walk(u.Elem(), where)
+				case *types.Struct:
+					for i := 0; i < u.NumFields(); i++ {
+						n++
+						if !u.Field(i).Exported() {
+							bad = append(bad, where+"."+u.Field(i).Name())
+						}
+						walk(u.Field(i).Type(), where)
+					}
+				}
+			}
+			missing := []string{}
+			for _, tn := range rule.Allowed {
+				obj := pk.Types.Scope().Lookup(tn)
+				if obj == nil {
+					missing = append(missing, tn)
+					continue
+				}
+				walk(obj.Type(), tn)
+			}
+			sort.Strings(bad)
+			o := &Obligation{Name: "types#" + rule.Label, Func: "types of " + p, Kind: "structural", Label: rule.Label, Tags: rule.Tags,
+				Pos: fmt.Sprintf("%s:%d", rule.File, rule.Line), Structural: true, StructOK: len(bad) == 0 && len(missing) == 0 && n > 0,
+				Goal: fmt.Sprintf("every field of %v and of the /repo struct types they contain (%d fields) is exported", rule.Allowed, n), Guard: "true"}
+			if len(bad) > 0 {
+				o.StructMsg = "unexported fields, which the encoder skips silently: " + strings.Join(bad, ", ")
+			} else if len(missing) > 0 {
+				o.StructMsg = "no such type: " + strings.Join(missing, ", ")
+			}
+			out = append(out, o)
+		}
+	}
+	return out
 }
